@@ -21,7 +21,9 @@ ASSUMPTIONS = [
 ]
 
 BUILTIN = list(G.SKIP_BUILTIN)
-USER = ['mycode', 'code*', 'code2', 'equation', 'align*', 'itemize', 'tabular', 'Z', 'verbatimx']
+USER = ['mycode', 'code*', 'code2', 'equation', 'align*', 'itemize', 'tabular', 'Z', 'verbatimx',
+        # names are compared as written: blanks are part of them; prefix-extended look-alikes of built-in names
+        ' code', 'code ', 'my code', 'NoVerbatim', 'xlstlisting']
 ATOMS = list(G.HOSTILE_ATOMS) + ['\\begin{NAME}', '\\end{NAMEx}', '\\end{NAM', '\\end {NAME}', '\\hid{1}', '\\end{NAME',
                                    '\\end{ NAME}', '}', '{', '\\begin{verbatim}', '\\end{e}', '\\end{f}',
                                    # a bare sizing prefix may stand directly before the closing \\end
@@ -200,7 +202,8 @@ def shard_fragments(ctx, shard):
     H.import_repo()
     from hypothesis import strategies as st
     res = H.Result()
-    strat = st.tuples(G.wfdoc('small'), st.sampled_from(['mycode', 'code*', 'code2', 'Z', 'Verbatim*', 'lstlisting*', 'Verbatimx', 'listings']))
+    strat = st.tuples(G.wfdoc('small'), st.sampled_from(['mycode', 'code*', 'code2', 'Z', 'Verbatim*', 'lstlisting*', 'Verbatimx', 'listings',
+                                                            'NoVerbatim', 'xverbatim', 'SaveVerbatim', 'mylstlisting', 'Blisting', ' code ', 'my code']))
 
     def prop(c):
         nodes, name = c
